@@ -11,16 +11,23 @@
    Proof operators (ProofRuntime.VerifyValue / VerifyAbsence) and the KeyPathFunc are arbitrary
    relations.
 
-   Fields of the answers that NO header commits to and that therefore stay unconstrained in every
-   [Consistent_X] below: BlockID.PartSetHeader; BlockMeta.BlockSize / NumTxs and
-   ResultBlockchainInfo.LastHeight (and which metas are present); ResultTx.TxResult; in
-   ResultTx, Index only relative to the proof's Total (the header does not commit to the number
-   of transactions: see C20_index_needs_total); Log / Info / Events / Codespace of every
+   Fields of the answers that nothing the light client verified commits to and that therefore
+   stay unconstrained in every [Consistent_X] below: BlockMeta.BlockSize / NumTxs and
+   ResultBlockchainInfo.LastHeight (and which metas are present); ResultTx.TxResult;
+   ResultTxSearch.TotalCount and which transactions a search returns; Log / Info / Events /
+   Codespace of every
    DeliverTx result, BeginBlock / EndBlock events, validator and parameter updates of
    ResultBlockResults; all consensus parameters except block.max_bytes and block.max_gas.
-   Whether the answer is for the height / hash / key that was ASKED for is checked only by
-   BlockResults.  TxSearch, BlockSearch, Tx without proof, Subscribe and the remaining methods
-   are handed through unverified and are outside these theorems. *)
+   BlockID.PartSetHeader IS committed to — by the commit inside the verified light block, whose
+   signatures are over the whole BlockID — and is bound by repair F44.
+   KNOWN FINDING F41 (not repaired): in ResultTx (Tx and TxSearch), Index is bound only relative
+   to the proof's Total, and no verified data commits to the number of transactions of a block:
+   C20_F41_index_not_bound exhibits the transaction at index 1 of a 2-transaction block relayed
+   as Index = 2 (proof relabelled 2 of 3).  C20_tx_binds therefore assumes the true leaf count.
+   Whether the answer is for the height / hash / key / query that was ASKED for is checked only
+   by BlockResults: every other answer names its own height / hash / key, and it is that
+   self-description which is verified.  BlockSearch, Tx / TxSearch without proof, Subscribe and
+   the remaining methods are handed through unverified and are outside these theorems. *)
 From Coq Require Import List ZArith NArith Bool.
 From TM Require Import Common.Hex Common.Sha256 Generated.Consts C10.Model C10.Proofs C20.Model C20.Proofs.
 Import ListNotations.
@@ -29,8 +36,9 @@ Open Scope Z_scope.
 (* ---------------------------------------------------------------- Block / BlockByHash *)
 
 (* relayed => the block's header hashes to the verified header of the block's height, the
-   BlockID names it, and the header's data / last-commit / evidence hashes are those of the
-   block's own contents *)
+   BlockID names it and is — hash and part-set header — the BlockID of the verified commit
+   (repair F44), and the header's data / last-commit / evidence hashes are those of the block's
+   own contents *)
 Theorem C20_block_sound :
   forall (H : bytes -> bytes) (hh : header -> bytes) (o : oracle) (r : rblock),
     snd (relay_block H hh o r) = true -> Consistent_block H hh o r.
@@ -131,6 +139,24 @@ Theorem C20_tx_complete :
 Proof. exact relay_tx_complete. Qed.
 Print Assumptions C20_tx_complete.
 
+(* ---------------------------------------------------------------- TxSearch (with proof) *)
+
+(* repair F42: relayed with prove = true => every returned transaction is consistent the way a
+   Tx answer is (the unrepaired client handed the answer through unverified) *)
+Theorem C20_search_sound :
+  forall (H : bytes -> bytes) (o : oracle) (rs : list (option rtx)),
+    snd (relay_search H o true rs) = true -> Consistent_search H o rs.
+Proof. exact relay_search_sound. Qed.
+Print Assumptions C20_search_sound.
+
+(* any list of answers built the way rpc/core builds them for transactions of verified blocks
+   is relayed *)
+Theorem C20_search_complete :
+  forall (H : bytes -> bytes) (o : oracle) (prove : bool) (rs : list (option rtx)),
+    Forall (Honest_result H o) rs -> snd (relay_search H o prove rs) = true.
+Proof. exact relay_search_complete. Qed.
+Print Assumptions C20_search_complete.
+
 (* server side: the proof rpc/core Tx serves for (block, i) — types.Txs.Proof(i) — validates
    against the block's data hash (types.Txs.Hash), for every block and index *)
 Theorem C20_served_proofs_verify :
@@ -201,26 +227,36 @@ Definition ex_hdr (ht : Z) (txs : list bytes) (lr : bytes) : header :=
   {| h_height := ht; h_last_commit_hash := [9%N]; h_data_hash := txs_root sha256 txs; h_evidence_hash := [8%N];
      h_consensus_hash := params_hash sha256 22020096 (-1); h_app_hash := [5%N];
      h_last_results_hash := lr; h_other := [1%N] |}.
-Definition ex_l2 : lblock := {| lb_header := ex_hdr 2 ex_txs []; lb_commit := [2%N]; lb_vals := [[1%N]; [2%N]; [3%N]] |}.
-Definition ex_l3 : lblock := {| lb_header := ex_hdr 3 [] (results_hash sha256 ex_rs); lb_commit := [3%N]; lb_vals := [[1%N]] |}.
+Definition ex_parts : psh := {| ps_total := 1; ps_hash := [6%N; 6%N] |}.
+Definition ex_lb (hd : header) (cm : bytes) (vals : list bytes) : lblock :=
+  {| lb_header := hd; lb_commit := cm; lb_id_hash := ex_hh hd; lb_id_parts := ex_parts; lb_vals := vals |}.
+Definition ex_l2 : lblock := ex_lb (ex_hdr 2 ex_txs []) [2%N] [[1%N]; [2%N]; [3%N]].
+Definition ex_l3 : lblock := ex_lb (ex_hdr 3 [] (results_hash sha256 ex_rs)) [3%N] [[1%N]].
 Definition ex_o : oracle :=
   {| o_verify := fun h => if h =? 2 then Some ex_l2 else if h =? 3 then Some ex_l3 else None;
      o_trusted := fun h => if h =? 2 then Some ex_l2 else None;
      o_update := Some ex_l3 |}.
-Definition ex_block (txs : list bytes) : rblock :=
+Definition ex_block_p (txs : list bytes) (parts : psh) : rblock :=
   let b := {| b_header := ex_hdr 2 txs []; b_hdr_ok := true; b_lc_ok := true; b_lc_hash := [9%N];
               b_txs := txs; b_ev_ok := true; b_ev_hash := [8%N] |} in
-  {| rb_id_ok := true; rb_id_hash := ex_hh (b_header b); rb_block := Some b |}.
+  {| rb_id_ok := true; rb_id_hash := ex_hh (b_header b); rb_id_parts := parts; rb_block := Some b |}.
+Definition ex_block (txs : list bytes) : rblock := ex_block_p txs ex_parts.
 
 (* the honest block is relayed; the same block with one transaction replaced (data hash and
-   block id recomputed by the liar) is not *)
-Example C20_block_nonvacuous :
+   block id recomputed by the liar) is not.  F44: the honest block under a BlockID with another
+   part-set header (all the unrepaired client compared was the hash) is refused. *)
+Example C20_block_nonvacuous_and_F44_witness :
   snd (relay_block sha256 ex_hh ex_o (ex_block ex_txs)) = true /\
   snd (relay_block sha256 ex_hh ex_o (ex_block [[1%N]; [2%N; 4%N]; [4%N]])) = false /\
+  snd (relay_block sha256 ex_hh ex_o (ex_block_p ex_txs {| ps_total := 77; ps_hash := [6%N; 6%N] |})) = false /\
+  snd (relay_block sha256 ex_hh ex_o (ex_block_p ex_txs {| ps_total := 1; ps_hash := [6%N; 7%N] |})) = false /\
   Honest_block sha256 ex_hh ex_l2 (ex_block ex_txs).
 Proof.
-  split; [vm_compute; reflexivity | split; [vm_compute; reflexivity |]].
-  eexists; repeat split; reflexivity.
+  split; [vm_compute; reflexivity |]. split; [vm_compute; reflexivity |].
+  split; [vm_compute; reflexivity |]. split; [vm_compute; reflexivity |].
+  eexists; split; [reflexivity |].
+  (* never [split] an equation between hashes: that is [eq_refl] by lazy conversion of SHA-256 *)
+  repeat match goal with |- _ /\ _ => split end; vm_compute; reflexivity.
 Qed.
 
 (* the honest answer for transaction 1 is relayed.  F18: the answer carrying the body "forged"
@@ -234,10 +270,40 @@ Example C20_tx_nonvacuous_and_F18_witness :
   snd (relay_tx sha256 ex_o forged) = false.
 Proof. vm_compute. repeat split; reflexivity. Qed.
 
-(* the header does not commit to the number of transactions, so the position is bound only
-   together with the proof's Total: the genuine proof of the LAST of three transactions
+(* F42: a search answer holding the honest result for transaction 0 and the forged one of the
+   example above is refused with prove = true (the unrepaired client relayed it, as the model
+   still does for prove = false); the honest results of the block are relayed *)
+Example C20_search_nonvacuous_and_F42_witness :
+  let r0 := honest_tx sha256 ex_txs 2 0 in
+  let r1 := honest_tx sha256 ex_txs 2 1 in
+  let forged := {| t_hash := t_hash r1; t_height := 2; t_index := 1; t_tx := [102%N; 111%N]; t_proof := t_proof r1 |} in
+  snd (relay_search sha256 ex_o true [Some r1; Some r0]) = true /\
+  snd (relay_search sha256 ex_o true [Some r0; Some forged]) = false /\
+  snd (relay_search sha256 ex_o true [Some r0; None]) = false /\
+  snd (relay_search sha256 ex_o false [Some r0; Some forged]) = true.
+Proof. vm_compute. repeat split; reflexivity. Qed.
+
+(* KNOWN FINDING F41.  Nothing the light client verified commits to the number of transactions
+   of a block, so the position is bound only together with the proof's Total.  The genuine proof
+   of the transaction at index 1 of a 2-transaction block also validates relabelled as "index 2
+   of 3" (same path shape: one aunt, to the left), and the answer carrying Index = 2 with that
+   proof IS RELAYED by the (F18-repaired) client although the block has no transaction 2. *)
+Example C20_F41_index_not_bound :
+  let txs := [[1%N]; [2%N; 3%N]] in
+  let l := ex_lb (ex_hdr 2 txs []) [2%N] [] in
+  let o := {| o_verify := fun h => if h =? 2 then Some l else None; o_trusted := fun _ => None; o_update := None |} in
+  let r := honest_tx sha256 txs 2 1 in
+  let p := tp_proof (t_proof r) in
+  let lie := {| t_hash := t_hash r; t_height := 2; t_index := 2; t_tx := t_tx r;
+                t_proof := {| tp_root := tp_root (t_proof r); tp_data := tp_data (t_proof r);
+                              tp_proof := {| pf_total := 3; pf_index := 2; pf_leaf_hash := pf_leaf_hash p;
+                                             pf_aunts := pf_aunts p |} |} |} in
+  snd (relay_tx sha256 o r) = true /\ snd (relay_tx sha256 o lie) = true /\ nth_error txs 2 = None.
+Proof. vm_compute. repeat split; reflexivity. Qed.
+
+(* the same in the other direction: the genuine proof of the LAST of three transactions
    (index 2 of 3) also validates as "index 1 of 2".  This is why C20_tx_binds assumes the true
-   leaf count, and why ResultTx.Index is listed as not fully constrained. *)
+   leaf count. *)
 Example C20_index_needs_total :
   let p := txs_proof sha256 ex_txs 2 in
   let q := {| tp_root := tp_root p; tp_data := tp_data p;
@@ -266,9 +332,12 @@ Qed.
 Example C20_params_info_validators_nonvacuous :
   snd (relay_params sha256 ex_o {| p_valid := true; p_height := 2; p_max_bytes := 22020096; p_max_gas := -1 |}) = true /\
   snd (relay_params sha256 ex_o {| p_valid := true; p_height := 2; p_max_bytes := 22020097; p_max_gas := -1 |}) = false /\
-  (let m := {| m_id_ok := true; m_id_hash := ex_hh (lb_header ex_l2); m_header := lb_header ex_l2 |} in
+  (let m := {| m_id_ok := true; m_id_hash := ex_hh (lb_header ex_l2); m_id_parts := ex_parts; m_header := lb_header ex_l2 |} in
    snd (relay_info ex_hh ex_o [Some m]) = true /\
-   snd (relay_info ex_hh ex_o [Some {| m_id_ok := true; m_id_hash := ex_hh (lb_header ex_l2); m_header := lb_header ex_l3 |}]) = false) /\
+   snd (relay_info ex_hh ex_o [Some {| m_id_ok := true; m_id_hash := ex_hh (lb_header ex_l2); m_id_parts := ex_parts; m_header := lb_header ex_l3 |}]) = false /\
+   (* F44 *)
+   snd (relay_info ex_hh ex_o [Some {| m_id_ok := true; m_id_hash := ex_hh (lb_header ex_l2);
+                                       m_id_parts := {| ps_total := 2; ps_hash := [6%N; 6%N] |}; m_header := lb_header ex_l2 |}]) = false) /\
   snd (relay_validators ex_o (Some 2) (Some 2) (Some 2)) = Some (2, [[3%N]], 3) /\
   snd (relay_validators ex_o (Some 2) (Some 3) (Some 2)) = None.
 Proof. vm_compute. repeat split; reflexivity. Qed.
